@@ -21,3 +21,9 @@ def run(report, tier):
                        f"combinations x {len(H.SCALES)} scale values {H.SCALES} x mother by EvtGen or PDG name",
                 functions=FUNCS, timeout=900 if tier == "thorough" else 480, sample={"bf": H.BF_PATTERNS[1], "ascending": True, "scale": 0.5})
     chrun.run_harness(report, h)
+    if tier == "thorough":
+        chrun.run_harness(report, Harness(
+            name="print-all-orderings", module="harness.c16", body="body_print_all", sig="sel: int", n_sel=H.N_ALL, concrete_body=True,
+            claim="as A[print] for every assignment of four lines to a four-value grid (all 75 weak orderings, every tie pattern, 256 assignments)",
+            bounds=f"{H.N_ALL} option/scale/naming combinations x 256 value patterns (looped inside the path)", functions=FUNCS, timeout=1800,
+            sample={"pattern": H.ALL_PATTERNS[27]}))
